@@ -1,7 +1,7 @@
 """C07 — decoding quotas bound the work and never change the result (structural clauses)."""
 import re
 
-from facts import AnchorMissing, callee, expr_path, lit_value, nodes, unblock, walk
+from facts import AnchorMissing, short, callee, expr_path, lit_value, nodes, unblock, walk
 from shared import method_calls
 import de_rules
 
@@ -263,6 +263,33 @@ def run(chk, facts, tier, only=None):
                    f"compute_cost must return original quota minus remaining quota for both counters; found {found}")
         cost_readers()
         quota_errors_propagate()
+        # the cost of a decode is `caller's config - remaining config`: the decoder must start from exactly the caller's quotas
+        fb = c.fn(r"^candid::de::Deserializer::<'de>::from_bytes$")
+        chk.analysed(fb["key"])
+        lits = [x for x in walk(fb["body"]) if x.get("k") == "struct" and (x.get("res") or {}).get("path", "").endswith("de::Deserializer")]
+        if not lits:
+            raise AnchorMissing("Deserializer::from_bytes: struct literal `Deserializer { .. }` not found")
+        cfgv = dict(lits[0]["fields"]).get("config")
+        if cfgv is None:
+            raise AnchorMissing("Deserializer::from_bytes: the literal has no `config` field")
+        e_ = unblock(cfgv)
+        chain = []
+        while e_.get("k") in ("mcall", "ref", "un", "cast") or (e_.get("k") == "call" and len(e_.get("args") or []) == 1):
+            if e_.get("k") == "mcall":
+                chain.append(e_["m"])
+                e_ = unblock(e_["recv"])
+            elif e_.get("k") == "call":
+                chain.append(short(callee(e_) or "?"))
+                e_ = unblock(e_["args"][0])
+            else:
+                e_ = unblock(e_.get("e") or e_.get("a"))
+        params = [p_.get("n") for p_ in fb["params"] if p_.get("k") == "bind"]
+        from_param = e_.get("k") == "path" and (e_.get("res") or {}).get("kind") == "Local" and e_["res"]["path"] in params
+        chk.expect(from_param and all(m_ in ("clone", "to_owned", "borrow", "as_ref", "deref", "into") for m_ in chain), "cost-basis:decoder-starts-from-the-callers-config",
+                   f"Deserializer::from_bytes initialises `config` through {chain or 'an expression that is not the parameter'}: `compute_cost` subtracts the remaining quotas from "
+                   f"the caller's original config, so any adjustment made here (capping one quota by the other, rounding) is reported as work done — the cost "
+                   f"of a successful decode then depends on the quotas supplied", where=f"{fb['span']['file']}:{cfgv.get('ln')}",
+                   ok_detail="config: config.clone()")
 
     def quota_errors_propagate():
         """a quota error ends decoding: the Result of add_cost goes straight into `?` at every call site.  Routed through a combinator chain
